@@ -50,7 +50,8 @@ def net(ctx, nif, namelen):
         v = [ctx.int(f"c{i}_{j}", 0, 2**64 - 1) for j in range(16)]
         names.append(nm)
         vals.append(v)
-        content = content + "  " + nm + ": " + " ".join(k.num(x, text=True) for x in v) + "\n"
+        tight = ctx.flag(f"tight{i}")         # the kernel prints `%6s:%8llu`: no blank after the colon once the counter has 8+ digits
+        content = content + "  " + nm + (":" if tight else ": ") + " ".join(k.num(x, text=True) for x in v) + "\n"
     k.files["/proc/net/dev"] = content
     with k.installed():
         per = psutil.net_io_counters(pernic=True, nowrap=False)
